@@ -6,6 +6,8 @@ from __future__ import annotations
 import math
 import random
 
+import sys
+
 import numpy as np
 import sympy as sp
 
@@ -341,6 +343,86 @@ def sat_model(hyps, timeout_ms=5000):
     return None
 
 
+def package_holders():
+    """every class- and module-level namespace of the nuspacesim package as loaded: [(label, namespace dict)]"""
+    holders = []
+    for mname, m in list(sys.modules.items()):
+        if m is None or not mname.startswith("nuspacesim"):
+            continue
+        holders.append(("module %s" % mname.split(".")[-1], vars(m)))
+        for cn, c in list(vars(m).items()):
+            if isinstance(c, type) and getattr(c, "__module__", "") == mname:
+                stack = [(c, c.__name__)]
+                while stack:
+                    cc, nm = stack.pop()
+                    holders.append(("class %s" % nm, vars(cc)))
+                    stack += [(x, nm + "." + k) for k, x in vars(cc).items() if isinstance(x, type) and getattr(x, "__module__", "") == mname and x is not cc]
+    return holders
+
+
+def global_state_keys(effects, otypes=()):
+    """attributes bound / containers mutated on objects that outlive a call: instances of `otypes`, any class, any module of the package"""
+    import types as _t
+
+    keys = set()
+    holders = None
+    for kind, obj, detail, where in effects:
+        if kind in ("setattr", "delattr"):
+            if isinstance(obj, type):
+                keys.add("class %s.%s" % (obj.__name__, detail))
+            elif isinstance(obj, _t.ModuleType):
+                keys.add("module %s.%s" % (obj.__name__.split(".")[-1], detail))
+            elif type(obj) in otypes:
+                keys.add("%s.%s" % (type(obj).__name__, detail))
+        elif kind in ("setitem", "delitem", "container-mutation") and isinstance(obj, (dict, list, set)):
+            if holders is None:
+                holders = package_holders()
+            for hname, d in holders:
+                for k, v in list(d.items()):
+                    if v is obj:
+                        keys.add("%s.%s[...]" % (hname, k))
+    return keys
+
+
+class GlobalState:
+    """snapshot / restore of the class- and module-level locations named by state keys (`class X.attr`, `module m.attr[...]`), so that a
+    native history design can compute its reference values from the state the package has when it is first used"""
+
+    def __init__(self, keys):
+        import copy
+
+        self.slots = []
+        for hname, d in package_holders():
+            for key in keys:
+                k2 = key[:-5] if key.endswith("[...]") else key
+                if k2.startswith(hname + ".") and "." not in k2[len(hname) + 1:]:
+                    attr = k2[len(hname) + 1:]
+                    if attr in d:
+                        try:
+                            self.slots.append((d, attr, d[attr], copy.deepcopy(d[attr])))
+                        except Exception:
+                            pass
+
+    def restore(self):
+        import copy
+
+        for d, attr, live, snap in self.slots:
+            if isinstance(live, dict):
+                live.clear()
+                live.update(copy.deepcopy(snap))
+            elif isinstance(live, list):
+                live[:] = copy.deepcopy(snap)
+            elif isinstance(live, set):
+                live.clear()
+                live.update(snap)
+            else:
+                try:
+                    d[attr] = copy.deepcopy(snap)
+                except TypeError:
+                    pass  # mappingproxy of a class: rebinding goes through setattr, not needed for containers
+
+
+
 class FunctionCheck:
     """obligations `real function == spec function` for every path, plus frame, cross-check, replay"""
 
@@ -362,6 +444,7 @@ class FunctionCheck:
         self.hyps = None
         self.select = select or (lambda r: r)
         self.check_self_frame = True
+        self._obj_types = set()
         self.rng_inputs = list(rng_inputs)
         self.clauses = list(clauses)
 
@@ -453,6 +536,17 @@ class FunctionCheck:
                 return {"violated": True, "input": jsonable_vals(v), "observed": d, "function": self.qn}
         return {"violated": False, "evaluations": n or self.n_native}
 
+    def search_and_history(self):
+        """bounded fallback of a path outside the supported subset: the seeded search, then the call-history design"""
+        r = self.search()
+        if r.get("violated"):
+            return r
+        if not hasattr(self, "_hist"):
+            self._hist = self.history_replay()
+        if self._hist.get("violated"):
+            return self._hist
+        return r
+
     # -- symbolic side -----------------------------------------------------------------
     def explore_code(self):
         it = make_interp(self.overrides)
@@ -487,6 +581,8 @@ class FunctionCheck:
                     for k, a in vars(so).items():
                         if isinstance(a, A):
                             a.origin = "self.%s" % k
+                    if not callable(so) or hasattr(type(so), "__mro__") and type(so).__module__.startswith("nuspacesim"):
+                        self._obj_types.add(type(so))
             return fn, args, kwargs
 
         self.code_paths = it.explore(mk)
@@ -531,11 +627,123 @@ class FunctionCheck:
                   note="; ".join(written) or "no input array written on this path",
                   clause="the function does not modify the arrays it is given",
                   replay_out=self.frame_replay() if written else None)
+        self.state_obligation(cp, tag)
         if self.check_self_frame:
             ck.direct("%s/assigns.self%s" % (qn, tag), not selfw, "frame", "effect-log(symbolic execution)",
                       note="; ".join(selfw) or "no array held by the object is updated in place on this path",
                       clause="the call leaves the arrays held by the object unchanged (a repeated call sees the same state)",
                       replay_out=self.frame_replay(True) if selfw else None)
+
+    # -- state carried from one call to the next ---------------------------------------------
+    def state_keys(self, cp):
+        """attributes bound / containers mutated on objects that outlive the call: the scenario's object(s), any class, any module"""
+        return global_state_keys(cp.effects, {t for t in self._obj_types if t.__module__.startswith("nuspacesim")})
+
+    def state_obligation(self, cp, tag):
+        """assigns.state: relative to the frame this function has on the pinned tree (contracts/expected_state_frames.json, derived from the
+        code), the call binds no further attribute of the object / its class / its module and mutates no further class- or module-level
+        container.  Such a write is state the next call can see; whether it changes a result is decided by the native history design
+        (same object, same array objects refilled in place; then a second object) -- a correctly invalidated cache is not a violation."""
+        ck, qn = self.ck, self.qn
+        keys = self.state_keys(cp)
+        ck.state_frames.setdefault(qn, set()).update(keys)
+        base = ck.expected_state.get(qn)
+        if base is None:
+            return
+        new = sorted(keys - set(base))
+        if not new:
+            ck.direct("%s/assigns.state%s" % (qn, tag), True, "frame", "effect-log(symbolic execution)", note="attribute / container writes on this path: %s" % (", ".join(sorted(keys)) or "none"),
+                      clause="the call leaves no state behind beyond the function's frame on the pinned tree (%d locations)" % len(base))
+            return
+        if not hasattr(self, "_hist"):
+            self._hist = self.history_replay(new_state=new)
+        h = self._hist
+        ck.direct("%s/assigns.state%s" % (qn, tag), False if h.get("violated") else None, "frame", "effect-log(symbolic execution) + native history design",
+                  note="state carried to the next call: %s%s" % (", ".join(new), "" if h.get("violated") else "; no failing call history found (%s histories)" % h.get("evaluations")),
+                  clause="the call leaves no state behind that changes the result of a later call (new: %s)" % ", ".join(new), witness={"new_state": new}, replay_out=h)
+
+    def _cmp_outputs(self, rc, rs):
+        if len(rc) != len(rs):
+            return {"clause": "number of outputs", "code": len(rc), "expected": len(rs)}
+        for name, a, b in zip(self.outputs, rc, rs):
+            if isinstance(a, (str, bytes, bool, type(None), list)) or isinstance(b, (str, bytes, bool, type(None), list)):
+                if a != b:
+                    return {"clause": "post.%s" % name, "code": repr(a)[:200], "expected": repr(b)[:200]}
+                continue
+            if not close(a, b, max(self.rtol, 1e-9)):
+                return {"clause": "post.%s" % name, "code": np.asarray(a, dtype=float).tolist() if np.size(a) <= 8 else str(a)[:200],
+                        "expected": np.asarray(b, dtype=float).tolist() if np.size(b) <= 8 else str(b)[:200]}
+        return None
+
+    def history_replay(self, trials=8, new_state=()):
+        """bounded native design for call histories: (1) one object, first batch, then the SAME array objects refilled in place with a second
+        batch of the same size; (2) a second object built after the first one, with inputs that differ in every key / in one key only.
+        The later result is compared with the executable specification (or, without one, with what a fresh object gives before any history)."""
+        rng = np.random.default_rng(self.ck.seed + 5)
+        gstate = GlobalState([k for k in new_state if k.startswith(("class ", "module "))])
+
+        def cp_(v):
+            return {k: (x.copy() if isinstance(x, np.ndarray) else x) for k, x in v.items()}
+
+        def expected(v):
+            with np.errstate(all="ignore"):
+                if self.spec is not None:
+                    return flat(self.run_spec_native(cp_(v)))
+                return None
+
+        n_hist = 0
+        try:
+            for trial in range(trials):
+                n = 4 + trial % 3
+                v1, v2 = self.valid_native(rng, n), self.valid_native(rng, n)
+                if v1.get("__pre_violated__") or v2.get("__pre_violated__"):
+                    continue
+                keys = [k for k in v1 if not k.startswith("__")]
+                if trial >= 2 and keys:
+                    k = keys[(trial - 2) % len(keys)]
+                    v2 = dict(cp_(v1), **{k: v2[k]})  # differs from the first input in one key only
+                exp_fresh = None
+                if self.spec is None or gstate.slots:
+                    gstate.restore()
+                    with np.errstate(all="ignore"):
+                        exp_fresh = flat(self.run_native(cp_(v2)))  # before any history of this design (class / module state as first found)
+                    gstate.restore()
+                # (1) same object, same array objects
+                va = cp_(v1)
+                fn, args, kwargs = self.sc.build(va)
+                with np.errstate(all="ignore"), patched_rng([va[m] for m in self.rng_inputs], unit=getattr(self, "rng_unit", False)):
+                    fn(*args, **kwargs)
+                vmix = {k: (v2[k] if isinstance(v1[k], np.ndarray) else v1[k]) for k in v1}
+                fn2, args2, kwargs2 = self.sc.build(cp_(vmix))
+                args = list(args)
+                for i, (a, b) in enumerate(zip(args, args2)):
+                    if isinstance(a, np.ndarray) and isinstance(b, np.ndarray) and a.shape == b.shape and a.dtype == b.dtype:
+                        a[...] = b
+                    elif not (hasattr(a, "__dict__") and not isinstance(a, np.ndarray)):
+                        args[i] = b
+                with np.errstate(all="ignore"), patched_rng([vmix[m] for m in self.rng_inputs], unit=getattr(self, "rng_unit", False)):
+                    out = flat(self.select(fn(*args, **kwargs)))
+                n_hist += 1
+                want = expected(vmix)
+                if want is None:
+                    with np.errstate(all="ignore"):
+                        want = flat(self.run_native(cp_(vmix)))
+                d = self._cmp_outputs(out, want)
+                if d is not None:
+                    return {"violated": True, "function": self.qn, "history": "call 1 on the object with `first`; the same array objects refilled in place with `second`; call 2 on the same object",
+                            "input": {"first": jsonable_vals(v1), "second": jsonable_vals(vmix)}, "observed": d}
+                # (2) a second object, built after the first one was used
+                with np.errstate(all="ignore"):
+                    out2 = flat(self.run_native(cp_(v2)))
+                n_hist += 1
+                want2 = exp_fresh if exp_fresh is not None else expected(v2)
+                d = self._cmp_outputs(out2, want2) if want2 is not None else None
+                if d is not None:
+                    return {"violated": True, "function": self.qn, "history": "an object built and used with `first`, then a new object built and used with `second`",
+                            "input": {"first": jsonable_vals(v1), "second": jsonable_vals(v2)}, "observed": d}
+        except Exception as ex:
+            return {"violated": None, "note": "history design raised %r" % ex, "evaluations": n_hist}
+        return {"violated": False, "evaluations": n_hist}
 
     def elementwise_obligation(self, cp, tag):
         """every array output's generic element is a term in the same-index inputs only: no aggregate
@@ -627,7 +835,7 @@ class FunctionCheck:
             if cp.kind == "unsupported":
                 o = ck.ob("%s/exec%s" % (qn, tag), "exec")
                 o.note = "unsupported construct: %s (at %s)" % (cp.exc, cp.where)
-                ck._undecided(o, self.search)
+                ck._undecided(o, self.search_and_history)
                 continue
             self.shape_obligations(cp, tag)
             self.frame_obligations(cp, tag)
